@@ -97,7 +97,7 @@ class AV:
     def contents(self):
         """Value obtained by reading an element / iterating.  A pure literal table ("GT") holds
         immutable scalars only, so its own identity does not flow into its elements."""
-        return AV(self.elem | {o for o in self.own if o[0] not in ("GT", "G")}, self.elem, self.funcs,
+        return AV(self.elem | {o for o in self.own if o[0] not in ("GT", "G", "T")}, self.elem, self.funcs,
                   [k for k in self.classes if k == ("py",)])
 
 
@@ -847,7 +847,11 @@ class Interp:
                 if fv.funcs:
                     return self.call_value(fv, args, kws, e, starkw)
             if name in FRESH_METHODS:
-                keep = name in ("copy", "tolist")
+                # x.copy(): deep for ndarrays (the dominant case in this package), shallow for Python
+                # containers -- the contents are kept only when the receiver is known to be one
+                pycont = any(o[0] == "T" for o in recv.own) or ("py",) in recv.classes or \
+                    (isinstance(fn.value, ast.Name) and self._is_py_container_name(fn.value.id))
+                keep = name == "tolist" or (name == "copy" and pycont)
                 return AV([("F", self.site(e))], recv.elem if keep else (), recv.funcs if keep else (),
                           recv.classes if name == "copy" else ())
             if name in VIEW_METHODS:
@@ -884,6 +888,10 @@ class Interp:
                 return self.builtin_or_lib_name_call(e, fn.id, r, args, kws)
         fav = self.ev(fn)
         return self.call_value(fav, args, kws, e, starkw)
+
+    def _is_py_container_name(self, name):
+        """Was the local name last bound to a list/dict/set display or comprehension?"""
+        return name in getattr(self, "_pycont", set())
 
     def _is_freeze(self, e):
         for k in e.keywords:
@@ -1138,7 +1146,15 @@ class Interp:
 
     def st_Assign(self, s):
         v = self.ev(s.value)
+        pc = self.__dict__.setdefault("_pycont", set())
         for t in s.targets:
+            if isinstance(t, ast.Name):
+                if isinstance(s.value, (ast.List, ast.Dict, ast.Set, ast.ListComp, ast.DictComp, ast.SetComp)) or \
+                        (isinstance(s.value, ast.Call) and isinstance(s.value.func, ast.Name)
+                         and s.value.func.id in ("list", "dict", "set")):
+                    pc.add(t.id)
+                else:
+                    pc.discard(t.id)
             self.bind(t, v, s)
 
     def st_AnnAssign(self, s):
@@ -1386,9 +1402,9 @@ def ext_write_findings(eng):
         for o, chains in st.mut.items():
             if not (o[0] in EXT_KINDS and o[1] in entry):
                 continue
-            # report only at the outermost frame: the record of the entry function itself
-            if q != o[1] and not _is_nested_in(eng.repo, q, o[1]):
-                continue
+            # a record in q with an origin P(f, p), q != f, can only have arrived through a field,
+            # a closure variable or a container (call bindings are substituted by the summaries):
+            # caller-owned data kept by the object and written later -- reported as well
             for ch in chains:
                 for path in trace_to_primitive(eng, q, o, ch):
                     prim = path[-1]
